@@ -1,5 +1,6 @@
 import LunarVerif.Proofs.C09
 import LunarVerif.Proofs.C09Conc
+import LunarVerif.Proofs.C09Dispatch
 /-!
 # C09 — Policy-mode throttling never exceeds the allowed count per aligned window
 
@@ -376,7 +377,67 @@ theorem plugin_spec_holds_groups (cap : CapFn) (ps : List PReq) (hW : ∀ p ∈ 
   simp only [groupFaithful, List.all_eq_true, beq_iff_eq] at hf
   exact (hf a ha b hb).symm
 
+/-! ### Dispatcher level: loader validation, remedy chains (`Model/C09Dispatch.lean`) -/
+
+/-- The loader accepts a policies document iff the names of all its policies are pairwise distinct. -/
+theorem accepted_iff_names_distinct (ps : List DPol) :
+    accepted ps = true ↔ (ps.map (·.name)).Nodup :=
+  accepted_iff_nodup ps
+
+/-- Accepted configuration ⇒ limiter states are per remedy: two DIFFERENT policies of an accepted document never
+    resolve to the same rate-limit key, whatever endpoints they are attached to and whatever the requests carry
+    (the key is made of the remedy NAME; the validation is what keeps names apart). -/
+theorem limiter_states_per_remedy (ps : List DPol) (hacc : accepted ps = true) :
+    ps.Pairwise (fun p q => ∀ r₁ r₂ hs₁ hs₂ k₁ k₂ w₁ w₂,
+      remedyOf p = some r₁ → remedyOf q = some r₂ →
+      resolve r₁ hs₁ = .limited k₁ w₁ → resolve r₂ hs₂ = .limited k₂ w₂ → k₁ ≠ k₂) := by
+  have hnd := (accepted_iff_nodup ps).mp hacc
+  rw [List.Nodup, List.pairwise_map] at hnd
+  refine hnd.imp ?_
+  intro p q hne r₁ r₂ hs₁ hs₂ k₁ k₂ w₁ w₂ hp hq h₁ h₂ hk
+  have e₁ := key_of_remedy r₁ hs₁ k₁ w₁ h₁
+  have e₂ := key_of_remedy r₂ hs₂ k₂ w₂ h₂
+  have n₁ : r₁.name = p.name := by
+    unfold remedyOf at hp; split at hp <;> simp at hp; rw [← hp]
+  have n₂ : r₂.name = q.name := by
+    unfold remedyOf at hq; split at hq <;> simp at hq; rw [← hq]
+  apply hne
+  rw [← n₁, ← n₂, ← e₁, ← e₂, hk]
+
+/-- A request whose chain holds ONE throttling remedy (next to any number of retry remedies, anywhere in the
+    chain) is answered exactly as that remedy's `OnRequest` answers: same verdict, same rejection status — the
+    response-phase remedies do not touch it — and the same counter step. -/
+theorem dispatch_single_throttle (cap : CapFn) (st : State Key) (ps : List DPol) (url method : String)
+    (hs : List (String × String)) (t : Nat) (r : Remedy)
+    (h : (chain ps url method).filterMap remedyOf = [r]) :
+    dispatchStep cap st ps url method hs t = pluginStep cap st r hs t :=
+  runChain_single_throttle cap hs t _ st r h
+
+/-- A request whose chain holds no throttling remedy passes and touches no counter. -/
+theorem dispatch_no_throttle (cap : CapFn) (st : State Key) (ps : List DPol) (url method : String)
+    (hs : List (String × String)) (t : Nat) (h : (chain ps url method).filterMap remedyOf = []) :
+    dispatchStep cap st ps url method hs t = (st, .noop) :=
+  runChain_no_throttle cap hs t _ st .noop h
+
 /-! ### Non-vacuity -/
+
+/-- dispatcher level: the document of seed C09-s11 (one name on two endpoints) is refused; with distinct names
+    `/orders` (2 per hour) and `/invoices` (5 per two hours) keep their own counts, a retry remedy covering 429
+    sits in both chains and the third `/orders` request leaves with 429. -/
+example :
+    let th (a w : Nat) : DKind := .throttle ⟨"", a, w, 429, false, 0, none, true⟩
+    let dup : List DPol := [⟨some ("api.example.com/orders", "GET"), "throttle", true, th 2 3600⟩,
+      ⟨some ("api.example.com/invoices", "GET"), "throttle", true, th 5 7200⟩]
+    let ok : List DPol := [⟨some ("api.example.com/orders", "GET"), "t-orders", true, th 2 3600⟩,
+      ⟨some ("api.example.com/invoices", "GET"), "t-invoices", true, th 5 7200⟩, ⟨none, "retry", true, .retry⟩]
+    let s1 := dispatchStep capExact [] ok "api.example.com/orders" "GET" [] 1000500000000
+    let s2 := dispatchStep capExact s1.1 ok "api.example.com/orders" "GET" [] 1000500000001
+    let s3 := dispatchStep capExact s2.1 ok "api.example.com/invoices" "GET" [] 1000500000002
+    let s4 := dispatchStep capExact s3.1 ok "api.example.com/orders" "GET" [] 1000500000003
+    accepted dup = false ∧ accepted ok = true ∧
+    [s1.2, s2.2, s3.2, s4.2] = [.noop, .noop, .noop, .early 429] := by
+  decide +kernel
+
 
 /-- the former F09e witness: " a" and "a" (50 % of 4 each) are different groups with their own counters — after
     " a" used its share, "a" still gets its own. -/
